@@ -74,7 +74,7 @@ def resume(snapshot_path: str, pre: list[dict], *, recoveries: int = 1, events: 
     path = os.path.join(env.scratch_dir(), f"resume-{os.getpid()}-{random.randrange(1 << 30)}.db")
     shutil.copyfile(snapshot_path, path)
     snaps = None
-    w = World(path=path, events=events, ledger=[dict(r) for r in pre])
+    w = World(path=path, events=events, ledger=[dict(r) for r in pre], base_time=os.path.getmtime(snapshot_path))
     w.owns_file = True
     since = w.max_seq()
     wf_row = w._exec_side("SELECT id FROM pipeline_executions ORDER BY created_at LIMIT 1").fetchone()
